@@ -8,6 +8,7 @@ import (
 	"io"
 	"os"
 	"strconv"
+	"time"
 	"unicode"
 
 	"github.com/ProtonMail/go-crypto/openpgp"
@@ -91,11 +92,18 @@ func PGPClearSignWithKeyID(message io.Reader, keyFile, passphrase string, hexKey
 		return nil, fmt.Errorf("clear sign: %w", err)
 	}
 
+	// like detached signing, pick the key of the entity that can sign: the
+	// primary key of a subkey-only export is a dummy without secret material
+	signingKey, ok := key.SigningKeyById(time.Now(), keyID)
+	if !ok || signingKey.PrivateKey == nil {
+		return nil, fmt.Errorf("clear sign: %w", errNoKeys)
+	}
+
 	var signature bytes.Buffer
 
 	writeCloser, err := clearsign.Encode(
 		&signature,
-		key.PrivateKey,
+		signingKey.PrivateKey,
 		&packet.Config{
 			SigningKeyId: keyID,
 			DefaultHash:  crypto.SHA256,
